@@ -17,8 +17,9 @@ def balancer(fresh=False, **kw):
     from synrbl import Balancer
 
     key = tuple(sorted(kw.items()))
+    n_jobs = kw.pop("n_jobs", 1)   # what the code is told; the controlled joblib seam decides what workers share
     if fresh or key not in _BAL:
-        b = Balancer(n_jobs=1, **kw)
+        b = Balancer(n_jobs=n_jobs, **kw)
         if fresh:
             return b
         _BAL[key] = b
